@@ -69,6 +69,13 @@ fn main() {
         "io-write" => { cases.prop = "C11".into(); c_io::generate_c11_write(&mut cases, &mut rng, thorough) }
         "io-read" => { cases.prop = "C11".into(); c_io::generate_c11_read(&mut cases, &mut rng, thorough) }
         "faults-c12" => { cases.prop = "C12".into(); c_io::generate_c12(&mut cases, &mut rng, thorough) }
+        "C14-big" => {
+            match util::catch(c14::big_entry) {
+                Ok(Ok(())) => println!("DIRECT ok 2^28-byte value round trip"),
+                Ok(Err(e)) => println!("DIRECT fail big entry: {}", e),
+                Err(e) => println!("DIRECT fail big entry panicked: {}", e),
+            }
+        }
         "C14-sweep" => {
             match c14::sweep_all() {
                 None => println!("SWEEP ok 4294967296"),
